@@ -11,6 +11,8 @@ mod corpus;
 mod engine;
 mod gen;
 mod props;
+#[cfg(feature = "reg")]
+mod regmodel;
 mod seams;
 mod supervisor;
 mod tape;
